@@ -752,3 +752,43 @@ impl<'a, 'c> G<'a, 'c> {
         }
     }
 }
+
+/// Error-free filler statements for hand-assembled programs (C15): a block generated in a fresh
+/// function context with the given parameters; no failing constructs, no Return / Abort, no
+/// calls to other script functions, no bare value cards.
+pub fn gen_filler(c: &mut Choices, n: usize, params: &[String], is_main: bool) -> Vec<Stmt> {
+    let cfg = GenCfg {
+        max_funcs: 1,
+        budget: 30,
+        closures: 2,
+        // no table cards: a row index or a table operand that goes wrong at run time would raise
+        // an error before the planted one
+        tables: 0,
+        natives: 5,
+        reentry: 0,
+        expr_stmt: 0,
+        errors: 0,
+        wide_globals: false,
+        return_in_main: false,
+        abort: false,
+        closure_bias: false,
+        submodule: false,
+    };
+    let mut g = G {
+        c,
+        cfg,
+        budget: 30,
+        sigs: vec![Sig { name: "filler".into(), arity: params.len(), in_sub: false }],
+        cur_fn: 0,
+        readable_globals: vec![],
+        all_globals: BTreeSet::new(),
+        next_closure: 500,
+        next_while: 500,
+        expr_stmts: 0,
+        error_budget: 0,
+    };
+    let mut ctx = FnCtx { scopes: vec![params.iter().map(|p| (p.clone(), Ty::Any)).collect()], outer: vec![], is_main: true, is_closure: !is_main };
+    let mut out = vec![];
+    g.gen_block(&mut ctx, n, true, &mut out);
+    out
+}
